@@ -471,6 +471,12 @@ func (m *Machine) assert(label string, c *Term, classes []kfClass) {
 func (m *Machine) checkViolation(label, kind string, extra []*Term, kfs []string, outside bool) {
 	want := m.caseTerms()
 	r, model := m.sol.CheckInc(m.pc, extra, want)
+	if r == Sat && len(m.realise) > 0 {
+		// prefer a model that also satisfies the replay-only constraints (character classes of pattern matches)
+		if r2, model2 := m.sol.CheckInc(m.pc, append(append([]*Term{}, extra...), m.realise...), want); r2 == Sat {
+			model = model2
+		}
+	}
 	switch r {
 	case Unsat:
 		return
